@@ -1,78 +1,266 @@
-import ZipVerif.Props.C12
+import ZipVerif.Props.C01
 /-
-C02 — Every archive the writer emits is a valid, self-consistent ZIP file.
+C02 — The writer's output is a valid archive (Level 1).
 
-First layer (this file, until `Lemmas/WL*.lean` is merged): an input the format cannot represent is
-REJECTED — before any byte is written and without touching the writer — for every state, every sink
-and every fault index.  The structural half ("the sink holds `Spec.Zip.build l`", from which the
-consistency clauses follow by construction) is the subject of `Lemmas/WL*.lean`; until then it is
-carried by the serialiser obligations `Tie/Records.lean`, `Tie/SpecRecords.lean` (regenerated
-translation of every header writer = the model's serialisers, field by field) and by the independent
-strict parser of the `write`/`append`/`rawcopy` streams.
+By `C01.writer_emits_layout` the sink after `finish` IS `Spec.Zip.build (WL.layoutOf es gap c [])`.
+The facts below are the self-consistency properties of that output, each as a short theorem:
+every value is representable (`writer_output_valid`), local and central record of an entry agree,
+the UTF-8 flag is set exactly for non-ASCII names, offsets / counts / sizes in the central directory
+and the end records are the computed ones and point where they should, ZIP64 records are present
+exactly when needed, CRC and sizes are those of the plaintext, and what cannot be represented is
+rejected with an error before anything is written (`unrepresentable_rejected`).
 -/
 
 namespace ZipVerif.Props.C02
-open ZipVerif ZipVerif.Model
+open ZipVerif ZipVerif.Model ZipVerif.Spec.Zip ZipVerif.WL
+open ZipVerif.Props.C12 (Call step runCalls)
 
-/-- A name longer than 65535 bytes is refused by `start_entry` (hence by `start_file`,
-`add_directory`, `add_symlink`, `raw_copy_file`): `Err`, the writer unchanged, no I/O call made. -/
-theorem name_too_long_rejected (ext : WExt) (name : Bytes) (o : FileOptions)
-    (raw : Option (UInt32 × UInt64 × UInt64)) (h : name.length > 65535) (s : WState)
-    (fa : Option Nat) (d : Dev) :
-    startEntry ext name o raw s fa d = (.ok (.error .invalidArchive, s), d) := by
-  unfold startEntry
-  simp only [h, if_true]
-  rfl
+/-! ## 1. The output is a representable, readable layout -/
 
-theorem start_file_name_too_long (ext : WExt) (name : Bytes) (o : FileOptions)
-    (h : name.length > 65535) (s : WState) (fa : Option Nat) (d : Dev) :
-    startFile ext name o s fa d = (.ok (.error .invalidArchive, s), d) := by
-  unfold startFile
-  rw [M.bind_apply, name_too_long_rejected ext name _ none h]
-  rfl
+/-- **`writer_output_valid`** — after any Level-1 script from a fresh writer, if `finish` returns
+`Ok`: the sink is the layout computed from the calls; every entry's name fits its 16-bit length
+field, there are no entry comments, no extra data, no data descriptors, no forced ZIP64 fields, no
+encryption bit, the method is not the AES pseudo-method; the archive comment fits its length field. -/
+theorem writer_output_valid (ext : WExt) (calls : List Call) (hc : ∀ c ∈ calls, Level1R c)
+    (ha : ∀ c ∈ calls, c.Admissible) (es : List Spec.Zip.Entry) (gap c : Bytes)
+    (hg : (C01.finalGhost ext calls).close ext = some (es, gap, c))
+    (v : Option Nat) (s' : WState) (d' : Dev)
+    (hfin : step ext .finish (runCalls ext calls WState.init none (Dev.ofBytes [])).2.1 none
+      (runCalls ext calls WState.init none (Dev.ofBytes [])).2.2 = (.ok (.ok v, s'), d')) :
+    d'.buf = build (layoutOf es gap c []) ∧ (∀ e ∈ es, EntryOk e) ∧ c.length ≤ 65535 ∧
+    (layoutOf es gap c []).Readable := by
+  obtain ⟨hbuf, hclen, _⟩ := C01.writer_emits_layout_fresh ext calls (fun c h => (hc c h).level1) ha
+    es gap c hg v s' d' hfin
+  have hgood : Good (C01.finalGhost ext calls) :=
+    good_run ext calls _ _ hc (show Good (.idle [] [] []) from fun e he => by cases he)
+  exact ⟨hbuf, hgood.close hg, hclen, fun e he => (hgood.close hg e he).readable⟩
 
-theorem add_symlink_name_too_long (ext : WExt) (name target : Bytes) (o : FileOptions)
-    (h : name.length > 65535) (s : WState) (fa : Option Nat) (d : Dev) :
-    addSymlink ext name target o s fa d = (.ok (.error .invalidArchive, s), d) := by
-  unfold addSymlink
-  rw [M.bind_apply, name_too_long_rejected ext name _ none h]
-  rfl
+/-- … and under the size bounds every value fits the field it is stored in (`Layout.Fits`). -/
+theorem writer_output_fits {es : List Spec.Zip.Entry} (gap c : Bytes) (hes : ∀ e ∈ es, EntryOk e)
+    (hc : c.length ≤ 65535) (hsize : (build (layoutOf es gap c [])).length < 2 ^ 63)
+    (hu : ∀ e ∈ es, e.usize.toNat < 2 ^ 63) : (layoutOf es gap c []).Fits :=
+  (layout_fits_readable gap c [] hes hc hsize hu).1
 
-theorem raw_copy_name_too_long (ext : WExt) (src : FileData) (raw name : Bytes)
-    (h : name.length > 65535) (s : WState) (fa : Option Nat) (d : Dev) :
-    rawCopy ext src raw name s fa d = (.ok (.error .invalidArchive, s), d) := by
-  unfold rawCopy
-  rw [M.bind_apply, name_too_long_rejected ext name _ _ h]
-  rfl
+/-! ## 2. Local and central record of an entry agree -/
 
-/-- An archive comment longer than 65535 bytes makes `finish()` fail before anything is written
-(the open entry is not even closed), the writer unchanged: the caller can shorten it and retry. -/
-theorem comment_too_long_rejected (ext : WExt) (s : WState) (h : s.comment.length > 65535)
-    (fa : Option Nat) (d : Dev) :
-    finish ext s fa d = (.ok (.error .invalidArchive, s), d) := by
-  unfold finish finalize
-  rw [M.bind_apply]
-  simp only [h, if_true]
-  rfl
+/-- The local header of an entry without data descriptor, split at its fields. -/
+theorem localRecord_fields (e : Spec.Zip.Entry) (hd : e.desc = .none) :
+    localRecord e =
+      le32 sigLocal ++ (le16 (e.localVersion.getD e.versionNeeded) ++ (le16 e.flags ++ (le16 e.method ++
+      (le16 e.time ++ (le16 e.date ++ (le32 e.crc ++
+      ((if e.localZip64 then le32 0xFFFFFFFF ++ le32 0xFFFFFFFF
+        else le32 (lo32 e.csize) ++ le32 (lo32 e.usize)) ++
+      (le16 (UInt16.ofNat e.name.length) ++ (le16 (UInt16.ofNat e.localExtraAll.length) ++
+      (e.name ++ e.localExtraAll)))))))))) := by
+  unfold localRecord Entry.localExtraAll Entry.flagsOut Entry.hasDesc
+  rw [hd]
+  simp only [bne_self_eq_false, Bool.false_eq_true, if_false, List.append_assoc]
 
-/-- Extra data that do not fit the 16-bit length field (together with the 20-byte ZIP64 record of a
-`large_file` entry) are refused by `end_extra_data`'s validation. -/
-theorem extra_too_long_rejected (f : FileData)
-    (h : f.extraField.length + (if f.largeFile then 20 else 0) > 65535) :
-    validateExtraData f = .error (.io .invalidData) := by
-  unfold validateExtraData
-  simp only [h, if_true]
+/-- **`local_central_agree`** — flags, method, time, date and CRC stand at offset 6 of the local and at
+offset 8 of the central record, and are the same 12 bytes; the names are the same bytes, with the same
+length field; and — unless the entry goes through ZIP64 — so are the two 32-bit sizes. -/
+theorem local_central_agree (e : Spec.Zip.Entry) (hd : e.desc = .none) (off : UInt64) :
+    ((localRecord e).drop 6).take 12 = ((centralRecord e off).drop 8).take 12 ∧
+    ((localRecord e).drop 26).take 2 = ((centralRecord e off).drop 28).take 2 ∧
+    ((localRecord e).drop 30).take e.name.length = ((centralRecord e off).drop 46).take e.name.length ∧
+    (e.localZip64 = false → e.zU = false → e.zC = false →
+      ((localRecord e).drop 18).take 8 = ((centralRecord e off).drop 20).take 8) := by
+  have hfo : e.flagsOut = e.flags := by simp [Entry.flagsOut, Entry.hasDesc, hd]
+  rw [localRecord_fields e hd, centralRecord_eq, hfo]
+  have l2 : ∀ v : UInt16, (le16 v).length = 2 := fun _ => rfl
+  have l4 : ∀ v : UInt32, (le32 v).length = 4 := fun _ => rfl
+  refine ⟨?_, ?_, ?_, ?_⟩
+  · simp [le16, le32]
+  · cases e.localZip64 <;> cases e.zC <;> cases e.zU <;> simp [le16, le32]
+  · cases e.localZip64 <;> cases e.zC <;> cases e.zU <;> simp [le16, le32]
+  · intro h1 h2 h3
+    rw [h1, h2, h3]
+    simp [le16, le32]
 
-/-- The central header writer refuses (before its first write) an entry whose central extra field
-together with the ZIP64 record would exceed 65535 bytes. -/
-theorem central_extra_too_long_rejected (f : FileData)
-    (h : (centralZip64Bytes f).length + f.extraField.length > 65535) :
-    centralHeaderChunks f = .err .invalidArchive := by
-  unfold centralHeaderChunks
-  simp only [h, if_true]
+/-! ## 3. UTF-8 flag ⇔ name not ASCII -/
 
-/-- Non-vacuity: the boundary is exactly 65535 / 65536. -/
-example : (List.replicate 65536 (0x61 : UInt8)).length > 65535 := by rw [List.length_replicate]; omega
-example : ¬ (List.replicate 65535 (0x61 : UInt8)).length > 65535 := by rw [List.length_replicate]; omega
+/-- **`utf8_flag_iff`** — bit 11 of the flag word both header writers emit is set exactly when the
+name contains a byte ≥ 0x80 (`String::is_ascii` is false). -/
+theorem utf8_flag_iff (f : FileData) : (flagOf f &&& 0x0800 != 0) = !isAscii f.fileName := by
+  unfold flagOf
+  cases isAscii f.fileName <;> cases f.encrypted <;> decide
+
+/-- The flag word of an emitted entry is `flagOf` of its record (local and central alike). -/
+theorem emitted_flags (f : FileData) (dp : UInt16) (gap lx data : Bytes) (lv : UInt16) :
+    (specEntry f dp gap lx data lv).flagsOut = flagOf f := rfl
+
+/-! ## 4. Offsets, counts and sizes are the computed ones -/
+
+/-- The end-of-central-directory record of the emitted layout, field by field: entry count, size and
+offset of the central directory (saturated to 0xFFFF / 0xFFFFFFFF when ZIP64 records carry the true
+values), comment length and comment. -/
+theorem eocd_fields (es : List Spec.Zip.Entry) (gap c : Bytes) :
+    (layoutOf es gap c []).eocd =
+      le32 sigEocd ++ le16 0 ++ le16 0 ++
+      le16 (if es.length > 0xFFFF then 0xFFFF else UInt16.ofNat es.length) ++
+      le16 (if es.length > 0xFFFF then 0xFFFF else UInt16.ofNat es.length) ++
+      le32 (if (centralBytes es (localOffsets es 0)).length > 0xFFFFFFFF then 0xFFFFFFFF
+            else UInt32.ofNat (centralBytes es (localOffsets es 0)).length) ++
+      le32 (if (localsBytes es).length + gap.length > 0xFFFFFFFF then 0xFFFFFFFF
+            else UInt32.ofNat ((localsBytes es).length + gap.length)) ++
+      le16 (UInt16.ofNat c.length) ++ c := by
+  unfold Layout.eocd
+  rw [layoutOf_count, layoutOf_cdOffset, layoutOf_cdSize]
+  simp only [layoutOf, Bool.false_or, decide_eq_true_eq]
+
+/-- The central directory really starts at the recorded offset and has the recorded size; the end
+records follow it. -/
+theorem central_directory_placed (es : List Spec.Zip.Entry) (gap c : Bytes) :
+    (build (layoutOf es gap c [])).drop ((localsBytes es).length + gap.length) =
+      centralBytes es (localOffsets es 0) ++
+        ((layoutOf es gap c []).end64 ++ ((layoutOf es gap c []).eocd ++ [])) := by
+  unfold build
+  rw [layoutOf_cdBytes]
+  show ([] ++ localsBytes es ++ gap ++ centralBytes es (localOffsets es 0) ++
+    (layoutOf es gap c []).end64 ++ (layoutOf es gap c []).eocd ++ []).drop _ = _
+  simp only [List.nil_append, List.append_assoc]
+  rw [← List.append_assoc (localsBytes es) gap]
+  exact drop_append_len (by simp)
+
+/-- Every recorded local-header offset points at that entry's local header, which is followed by its
+data: for the entry after `es1`, the offset `localOffsets` computes (and `centralBytes` records) is the
+position of its `localRecord`. -/
+theorem offsets_point_to_headers (es1 es2 : List Spec.Zip.Entry) (e : Spec.Zip.Entry) (gap c : Bytes) :
+    ∃ rest, (build (layoutOf (es1 ++ e :: es2) gap c [])).drop
+        ((localsBytes es1).length + e.gapBefore.length) = localRecord e ++ (e.data ++ rest) := by
+  obtain ⟨rest, h⟩ := drop_local (layoutOf (es1 ++ e :: es2) gap c []) es1 es2 e rfl
+  refine ⟨rest, ?_⟩
+  rw [← h]
+  congr 1
+  simp [layoutOf]
+
+/-! ## 5. ZIP64 records exactly when needed -/
+
+/-- **ZIP64 end records are present exactly when needed**: more than 0xFFFF entries, or a central
+directory size or offset above 0xFFFFFFFF. -/
+theorem zip64_end_iff_needed (es : List Spec.Zip.Entry) (gap c : Bytes) :
+    ((layoutOf es gap c []).end64 ≠ [] ↔
+      (es.length > 0xFFFF ∨ (centralBytes es (localOffsets es 0)).length > 0xFFFFFFFF ∨
+       (localsBytes es).length + gap.length > 0xFFFFFFFF)) := by
+  have hn := layoutOf_needs64 es gap c []
+  unfold Layout.end64
+  cases h : (layoutOf es gap c []).needs64 with
+  | true =>
+    rw [h] at hn
+    simp only [if_true]
+    constructor
+    · intro _
+      rcases Bool.or_eq_true_iff.mp hn.symm with h1 | h1
+      · left; exact of_decide_eq_true h1
+      · have := of_decide_eq_true h1; omega
+    · intro _; simp [le32]
+  | false =>
+    rw [h] at hn
+    simp only [Bool.false_eq_true, if_false, ne_eq, not_true_eq_false, false_iff]
+    obtain ⟨h1, h2⟩ := Bool.or_eq_false_iff.mp hn.symm
+    have h1' : ¬ es.length > 0xFFFF := of_decide_eq_false h1
+    have h2' := of_decide_eq_false h2
+    omega
+
+/-- **The central ZIP64 extended-information record of an emitted entry is present exactly when one
+of its three values does not fit 32 bits** (it then holds exactly those values). -/
+theorem central_zip64_iff_needed (e : Spec.Zip.Entry) (hz : e.z64 = (false, false, false)) (off : UInt64) :
+    (e.centralZ64 off = [] ↔ (e.usize < 0xFFFFFFFF ∧ e.csize < 0xFFFFFFFF ∧ off < 0xFFFFFFFF)) := by
+  unfold Entry.centralZ64 Entry.zU Entry.zC Entry.zO
+  rw [hz]
+  simp only [Bool.false_or]
+  by_cases h1 : e.usize ≥ (0xFFFFFFFF : UInt64) <;>
+  by_cases h2 : e.csize ≥ (0xFFFFFFFF : UInt64) <;>
+  by_cases h3 : off ≥ (0xFFFFFFFF : UInt64) <;>
+  simp [h1, h2, h3, le16, UInt64.not_le.mp, UInt64.not_lt] <;>
+  first
+  | exact ⟨UInt64.not_le.mp h1, UInt64.not_le.mp h2, UInt64.not_le.mp h3⟩
+  | (intro h; try exact absurd h (UInt64.not_lt.mpr ‹_›))
+  | skip
+
+/-- The local ZIP64 record is present exactly for entries started with `large_file(true)`. -/
+theorem local_zip64_iff_large (f : FileData) (dp : UInt16) (gap data : Bytes) (lv : UInt16) :
+    (specEntry f dp gap [] data lv).localZip64 = f.largeFile ∧
+    (specEntry f dp gap [] data lv).localExtraAll.length = (if f.largeFile then 20 else 0) := by
+  refine ⟨rfl, ?_⟩
+  unfold Entry.localExtraAll
+  cases h : f.largeFile <;> simp [specEntry, h]
+
+/-! ## 6. Stored CRC and sizes are those of the plaintext -/
+
+/-- **`stored_crc_size`** — for an entry started through the writer: the recorded CRC-32 is the
+CRC-32 of the plaintext delivered by `write`, the uncompressed size its length, the compressed size
+the length of the stored bytes, which are the plaintext itself for `Stored` and the encoder's output
+otherwise. -/
+theorem stored_crc_size (ext : WExt) (e : Spec.Zip.Entry) (f : FileData) (plain : Bytes)
+    (h : OriginRel ext (.written f plain) e) :
+    e.crc = Spec.Crc32.crc32 plain ∧ e.usize = UInt64.ofNat plain.length ∧
+    e.csize = UInt64.ofNat e.data.length ∧ e.name = f.fileName ∧ e.method = f.method.toU16 ∧
+    (f.method = .stored → e.data = plain) ∧
+    (f.method ≠ .stored → e.data = ext.compress f.method (effLevel f.method f.level) plain) := by
+  obtain ⟨dp, gap, _, he⟩ := h
+  subst he
+  refine ⟨rfl, rfl, rfl, rfl, rfl, ?_, ?_⟩
+  · intro hm; show dataOf ext f plain = plain; rw [dataOf, if_pos hm]
+  · intro hm; show dataOf ext f plain = _; rw [dataOf, if_neg hm]
+
+/-- A raw copy keeps its source's CRC, sizes and method, and stores exactly the copied bytes. -/
+theorem raw_copy_values (ext : WExt) (e : Spec.Zip.Entry) (f : FileData) (data : Bytes)
+    (h : OriginRel ext (.raw f data) e) :
+    e.crc = f.crc32 ∧ e.usize = f.uncompressedSize ∧ e.data = data ∧ e.method = f.method.toU16 := by
+  obtain ⟨dp, gap, _, he⟩ := h
+  subst he
+  exact ⟨rfl, rfl, rfl, rfl⟩
+
+/-! ## 7. What cannot be represented is rejected -/
+
+/-- **`unrepresentable_rejected`** — a name longer than 65535 bytes makes `start_file`,
+`add_directory` (for the name with its `/`), `add_symlink` and `raw_copy_file` return
+`Err(InvalidArchive)` without any I/O and without changing the writer; a comment longer than 65535
+bytes makes `finish` do the same. -/
+theorem unrepresentable_rejected (ext : WExt) (s : WState) :
+    (∀ n o, n.length > 65535 → startFile ext n o s = pure (.error .invalidArchive, s)) ∧
+    (∀ n o, (dirName n).length > 65535 → addDirectory ext n o s = pure (.error .invalidArchive, s)) ∧
+    (∀ n t o, n.length > 65535 → addSymlink ext n t o s = pure (.error .invalidArchive, s)) ∧
+    (∀ src raw n, n.length > 65535 → rawCopy ext src raw n s = pure (.error .invalidArchive, s)) ∧
+    (s.comment.length > 65535 → finish ext s = pure (.error .invalidArchive, s)) := by
+  have hse : ∀ n o raw, n.length > 65535 →
+      startEntry ext n o raw s = pure (.error .invalidArchive, s) := by
+    intro n o raw h; unfold startEntry; rw [if_pos h]
+  refine ⟨?_, ?_, ?_, ?_, finish_long_comment ext s⟩
+  · intro n o h; unfold startFile; dsimp only; rw [hse _ _ _ h]; rfl
+  · intro n o h
+    unfold addDirectory
+    show (startEntry ext (dirName n) _ none s >>= _) = _
+    rw [hse _ _ _ h]; rfl
+  · intro n t o h; unfold addSymlink; dsimp only; rw [hse _ _ _ h]; rfl
+  · intro src raw n h; unfold rawCopy; dsimp only; rw [hse _ _ _ h]; rfl
+
+/-- `pure` does no I/O: the device (contents, position, call counter) is untouched. -/
+theorem rejected_no_io {α} (r : α) (fa : Option Nat) (d : Dev) : (pure r : M α) fa d = (.ok r, d) := rfl
+
+/-! ## 8. Non-vacuity -/
+
+/-- the entries `script1` of C01 emits satisfy `EntryOk`, agree locally/centrally (hypothesis
+`desc = none`), and carry no ZIP64 records -/
+example :
+    (match (C01.finalGhost C01.wext1 C01.script1).close C01.wext1 with
+     | some (es, gap, c) =>
+       es.all (fun e => e.desc == .none && e.centralExtra == [] && e.localExtra == [] &&
+         e.name.length ≤ 0xFFFF && e.method != 99 && (e.centralZ64 0).isEmpty) &&
+       (layoutOf es gap c []).end64.isEmpty
+     | none => false) = true := by decide +kernel
+
+/-- a non-ASCII name sets bit 11, an ASCII one does not -/
+example : flagOf { (default : FileData) with fileName := [0xc3, 0xa9] } = 0x0800 ∧
+    flagOf { (default : FileData) with fileName := [0x61] } = 0 := by decide
+
+/-- the rejections of `unrepresentable_rejected` happen on concrete input: a 65536-byte name, a
+65536-byte comment -/
+example :
+    (C12.classes [.startFile (List.replicate 65536 0x61) (C12.opts .stored none)]) = [.err] ∧
+    (C12.classes [.setComment (List.replicate 65536 0x61), .finish]) = [.ok, .err] ∧
+    (runCalls C12.ext0 [.setComment (List.replicate 65536 0x61), .finish] WState.init none
+      (Dev.ofBytes [])).2.2.buf = [] := by decide +kernel
 
 end ZipVerif.Props.C02
